@@ -74,27 +74,27 @@ add("C10", "E2-histories",
 E3M = "small-scope exhaustive enumeration of all inputs up to a size bound, each executed on the real function and compared with a brute-force reference (bounded model checking of a pure function by explicit enumeration)"
 
 add("C13", "E3-smallscope",
-    "All label arrays of shape 2x1x3 over labels {0..2} (quick) / {0..3} (thorough) x all non-empty subsets of the (time,label) pairs present x all injective assignments to node ids {0..3}/{0..4} (identity, permutations and chains such as 1->2,2->1, ids equal to other labels, label reuse across frames, unlisted labels, id 0) through relabel_segmentation directly and through tracks_from_df(df, segmentation) (which adds the 'ids equal => fast path'); oracle: per-pixel out[t,p] = node(t,in[t,p]) (+1 if id 0 present, graph shifted too), background elsewhere.",
+    "All label arrays of shape 2x1x3 over labels {0..2} (quick) / {0..3} (thorough) x all non-empty subsets of the (time,label) pairs present x all injective assignments to node ids {0..3}/{0..4} (identity, permutations and chains such as 1->2,2->1, ids equal to other labels, label reuse across frames, unlisted labels, id 0), a 3D+t variant (2x2x1x2) and uint8 source arrays with node ids 256 / 257 / 300, through relabel_segmentation directly and through tracks_from_df(df, segmentation) (which adds the 'ids equal => fast path'); oracle: per-pixel out[t,p] = node(t,in[t,p]) (+1 if id 0 present, graph shifted too), background elsewhere.",
     "Bounded array shape and id range; pandas/dask trusted.", E3M, "DESIGN.md 4 C13")
 add("C17", "E3-smallscope",
     "All ordered lists of <=3 (quick) / <=4 (thorough; 16-name vocabulary, plus <=3 over all 24) distinct column names from a vocabulary built from the code's own key, display-name and value-name tables plus case variants and unrelated names, x required-key sets {[time],[time,id,parent_id]} x ndim {3,4}; same for edge maps (<=5 names of 8). Oracle: flattened values of the returned map == the input columns, each exactly once, none invented; a column spelled like a required key or seg_id maps to that key.",
     "Vocabulary-bounded; difflib behaviour trusted.", E3M, "DESIGN.md 4 C17")
 add("C18", "E3-smallscope",
-    "All multisets of <=4 (quick) / <=5 (thorough) points on the lattice frames {0..3} x positions {0..3} (embedded in 2-D and 3-D, with and without anisotropic scale) x max distance {1,1.5,2}, and all label arrays 4x1x3 with globally unique labels from <=3/4 detections with IoU requested: every pattern of empty frames and gaps occurs. Oracle: nodes = detections with time/scaled centroid/area, edge iff next frame and distance <= max (exact on the integer lattice), IoU by pixel counting.",
+    "All multisets of <=4 (quick) / <=5 (thorough) points on the lattice frames {0..4} x positions {0..2} (embedded in 2-D and 3-D, with and without anisotropic scale) x max distance {1,1.5,2}, and all label arrays 5x1x3 with globally unique labels from <=3/4 detections with IoU requested (int64 labels 1..4 and uint8 labels 16/32/48 whose products wrap): every pattern of empty frames and gaps occurs, incl. two populated frames on both sides of a gap. Oracle: nodes = detections with time/scaled centroid/area, edge iff next frame and distance <= max (exact on the integer lattice), IoU by pixel counting.",
     "Lattice-bounded; scipy KDTree and skimage.regionprops trusted.", E3M, "DESIGN.md 4 C18")
 add("C19", "E3-smallscope",
-    "ensure_unique_labels on all 65 536 arrays 4x1x2 over {0,1,2,5} and all multi-hypothesis arrays 2x2x1x2 (thorough: also 3x1x3 over {0,1,3}): no label in two frames/hypotheses, per-frame partition and background unchanged. relabel_segmentation_with_track_id on all labelled forests <=4/5 nodes x {labels = ids, labels reused across frames} x {with / without a detection missing from the solution}: same label iff same maximal unbranched segment, non-solution detections removed.",
+    "ensure_unique_labels on all 65 536 arrays 4x1x2 over {0,1,2,5}, all multi-hypothesis arrays 2x2x1x2, 3D frames, three hypotheses, 5-D (h,t,z,y,x) arrays and non-C-contiguous inputs (thorough: also 3x1x3 over {0,1,3}): no label in two frames/hypotheses, per-frame partition and background unchanged. relabel_segmentation_with_track_id on all labelled forests <=4/5 nodes x {labels = ids, labels reused across frames} x {with / without a detection missing from the solution}: same label iff same maximal unbranched segment, non-solution detections removed.",
     "Bounded shapes and label values.", E3M, "DESIGN.md 4 C19")
 
 add("C12", "E3-smallscope",
-    "tracks_from_df on every labelled forest <=3 (quick) / <=4 (thorough) nodes x id scheme {1..n, non-contiguous, containing 0, descending, strings, non-integer floats} x parent encoding {-1, NaN} x {2D,3D} x column naming {standard, all renamed, id renamed} x extra custom columns (scalar, list-valued string) x position order {standard, permuted}; import_from_geff on stores written with geff.write (forests x id schemes x dims x namings x {per-axis, permuted, pre-stacked position}). Oracle: nodes == source ids (or a link-preserving bijection for renumbered ids), edges == parent links, time / position in mapped order / every mapped property == source cell. Malformed variants (duplicate id, unknown parent, self link at every row; missing required column / mapping) must raise ValueError.",
+    "tracks_from_df on every labelled forest <=3 (quick) / <=4 (thorough) nodes x id scheme {1..n, non-contiguous, containing 0, descending, strings in sorted and unsorted row order, non-integer floats} x parent encoding {-1, NaN, -1 on a reversed table with a non-default index, float time column} x {2D, 3D with an integer z column next to float y/x} x column naming {standard, all renamed, id renamed, an unrelated column spelled like a standard key} x custom columns {none, dense, sparse; scalar and list-valued string} x position / column order {standard, reversed}; import_from_geff on stores written with geff.write (forests x id schemes x dims x namings x {per-axis, permuted, pre-stacked position}). Oracle: nodes == source ids (or a link-preserving bijection for renumbered ids), edges == parent links, time / position in mapped order / every mapped property == source cell. Malformed tables (duplicate id, unknown parent, self link at every row; missing required column / mapping) and tampered GEFF stores (duplicate id, unknown endpoint, self link) must raise ValueError.",
     "Bounded forests and value schemes; pandas / geff / zarr trusted.", E3M, "DESIGN.md 4 C12")
 add("C14", "E1-explore",
     "The distinct states of a BFS over the real objects (edited sessions: non-contiguous ids, divisions, skip edges, isolated nodes, custom features) in worlds {2D, 3D, per-axis positions, given ids, with segmentation 2D / 3D anisotropic} are each rebuilt and written and re-read as CSV, internal format and GEFF with the explicit corresponding key mapping; compared: nodes, edges, times, positions, track ids, lineage partition, loaded node/edge features, array (GEFF, internal), scale and registry (internal).",
     "GEFF round trips cost 0.3-0.5 s and run on smaller state sets than CSV/internal (all states of their own BFS bound, no sampling). One genuine defect is recorded as KF-C14-geff-seg-centroid-outside-mask. The empty solution is not exported.",
     MC + " + file round trip per distinct state", "DESIGN.md 4 C14")
 add("C15", "E3-smallscope",
-    "All labelled forests <=4 (quick) / <=5 (thorough) nodes x all 2^N node subsets x {CSV, GEFF} x {without, with segmentation}: written node set == selection + ancestors (independent recursive parent walk), written edges == induced edges, exported array == source masked to exactly those ids (GEFF) / those nodes labelled by track (CSV tif).",
+    "All labelled forests <=4 (quick) / <=5 (thorough) nodes x all 2^N node subsets x {CSV, GEFF} x {without, with segmentation}, with ids ascending, descending in time, zero-based and above 255, a frame wider than one 64-pixel chunk of the GEFF exporter, a 24-node case with wide sparse ids, and a second selection exported from the same object: written node set == selection + ancestors (independent recursive parent walk), written edges == induced edges, exported array == source masked to exactly those ids (GEFF) / those nodes labelled by track (CSV tif).",
     "Quick tier runs GEFF for all forests <=3 nodes (all subsets) and single-node selections of 4-node forests; CSV everywhere. geff / zarr / tifffile trusted.",
     E3M, "DESIGN.md 4 C15")
 add("C16", "E1-explore",
